@@ -349,15 +349,16 @@ def sent_ids_behind_backlog(ctx: Ctx, framing: str, first: Any, drain: Any) -> N
 
 
 def shard(ctx: Ctx) -> None:
+    if ctx.shard == 0:
+        # first: the structural obligations need nothing but the modules and the text (and the workloads below assume some of them)
+        tables(ctx)
+        ctx.res.sample({"obligation": "positional-lookup", "id": 25, "expected": "SensorStateResponse"})
     for j, (framing, first, drain) in enumerate((("plain", ("partial", 1000), ("rate", 7)), ("plain", "block", None), ("noise", ("partial", 1500), ("rate", 40)),
                                                  ("noise", "block", ("rate", 2000)), ("plain", ("partial", 2990), ("rate", 1)))):
         if ctx.mine(700 + j):
             sent_ids_behind_backlog(ctx, framing, first, drain)
     passive_direction(ctx)
     lookup_behaviour(ctx)
-    if ctx.shard == 0:
-        tables(ctx)
-        ctx.res.sample({"obligation": "positional-lookup", "id": 25, "expected": "SensorStateResponse"})
     jobs: list[tuple[Any, ...]] = [("plain", (1, 10), False), ("noise", (1, 10), False), ("plain", (1, 10), True), ("noise", (1, 10), True)]
     if ctx.thorough:
         jobs += [("plain", (1, 0), False), ("plain", (1, 2), False), ("noise", (1, 4), False), ("plain", (1, 9), False), ("plain", (2, 0), False), ("plain", (1, 2), True)]
